@@ -248,7 +248,9 @@ let cyclic = Cc::new_cyclic(|weak| {
             panic!("Cannot create a new Cc while tracing!");
         }
 
+        #[cfg(kani)] let __um = crate::verif::unwind_mark(); // verification hook (H4): emulated unwinding, /verif/DESIGN.md 2.5
         let cc = Cc::new(NewCyclicWrapper::new());
+        #[cfg(kani)] if crate::verif::unwound(__um) { mem::forget(cc); return Cc::__new_internal(NonNull::dangling()); } // verification hook (H4): emulated unwinding, /verif/DESIGN.md 2.5
 
         // Immediately call inner_ptr and forget the Cc instance. Having a Cc instance is dangerous, since:
         // 1. The strong count will become 0
@@ -301,6 +303,7 @@ let cyclic = Cc::new_cyclic(|weak| {
 
         let panic_guard = PanicGuard { invalid_cc };
         let to_write = f(&weak);
+        #[cfg(kani)] if crate::verif::unwound(__um) { mem::forget(to_write); return Cc::__new_internal(NonNull::dangling()); } // verification hook (H4): emulated unwinding, /verif/DESIGN.md 2.5 (an emulated-panicking closure still has to return a value: it is forgotten, never dropped)
         mem::forget(panic_guard); // Panic guard is no longer useful
 
         unsafe {
